@@ -288,6 +288,11 @@ func (w *dnsWorld) c08FlushLRU() {
 				continue
 			}
 			au, oka := w.track.lastUse[a.key]
+			if !a.refreshed && (!oka || a.insertedAt > au.max) {
+				// storing an answer under a key that had no entry counts as a use of that key
+				// (also when the lookup was dae's own companion query for the other address family)
+				au, oka = dnsUse{min: a.insertedAt, max: a.insertedAt}, true
+			}
 			if !oka {
 				continue
 			}
@@ -344,6 +349,9 @@ func dnsScenarioC08(w *dnsWorld) {
 			// revisit a cached key most of the time
 			if cur := w.sortedEntries(); len(cur) > 0 && T.Chance(3, 4) {
 				e := cur[T.Choose(len(cur))]
+				if i == 0 && w.focus != nil {
+					e = w.focus
+				}
 				op.name, op.qtype = e.key.name, e.key.qtype
 			} else {
 				op.name, op.qtype = w.names[T.Choose(len(w.names))], dnsQtypes[T.Pick(3, 2, 1)]
@@ -418,6 +426,7 @@ func (w *dnsWorld) pickJump() time.Duration {
 		return []time.Duration{100 * time.Millisecond, time.Second, 7 * time.Second, 40 * time.Second}[T.Choose(4)]
 	}
 	e := cur[T.Choose(len(cur))]
+	w.focus = e // the next round's first revisit asks for this entry's key: the jump was placed for it
 	dl, ok := e.deadline(w)
 	if !ok {
 		return time.Second
